@@ -5,7 +5,7 @@ set -u
 export GOFLAGS=-mod=mod GOPROXY=off GOSUMDB=off GOTOOLCHAIN=local
 OUT=$1; TAGS=${2:-}
 REPO=${VERIF_REPO:-/repo}
-V=/verif
+V="$(dirname "$(readlink -f "$0")")"
 mkdir -p "$OUT" || exit 2
 [ -x $V/bin/verifinst ] || (cd $V/verifinst && go build -o $V/bin/verifinst .) || exit 2
 ADDS=()
